@@ -230,6 +230,80 @@ def register(R):
                'implies(not isnan(self._max), val(self._max) == max(val(old(self._max)), val(other._max)))'],
       bounded='bounded_partition'))
 
+  # UnboundedSampler (two input columns): merge appends the operand's samples column by column; the operand's lists are
+  # neither written nor shared (merging into a fresh sampler must not adopt them: later adds would leak into the operand)
+  R.cls('UnboundedSampler', dict(_samples='tuple[]', _multi_input='bool'))
+  def _sampler(self_cols, other_cols):
+    def setup(it, env):
+      env['self'].f['_samples'] = it.fresh('tuple[' + ','.join(['list[obj]'] * self_cols) + ']', 'self._samples') if self_cols else VTuple([])
+      env['other'].f['_samples'] = it.fresh('tuple[' + ','.join(['list[obj]'] * other_cols) + ']', 'other._samples') if other_cols else VTuple([])
+      it.ghost['o0'] = env['other'].f['_samples']
+    return setup
+  APP = lambda c: (f'len(self._samples[{c}]) == len(old(self._samples[{c}])) + len(other._samples[{c}])'
+                   f' and forall(lambda j: self._samples[{c}][j] is old(self._samples[{c}])[j], 0, len(old(self._samples[{c}])))'
+                   f' and forall(lambda j: self._samples[{c}][len(old(self._samples[{c}])) + j] is other._samples[{c}][j], 0, len(other._samples[{c}]))')
+  SAME = lambda c: (f'len(other._samples[{c}]) == len(old(other._samples[{c}]))'
+                    f' and forall(lambda j: other._samples[{c}][j] is old(other._samples[{c}])[j], 0, len(other._samples[{c}]))')
+  R.add(Contract(
+      f'{RS}::UnboundedSampler.merge', PROPS, variant='both-non-empty', types=dict(self='UnboundedSampler', other='UnboundedSampler'), ret='UnboundedSampler',
+      setup=_sampler(2, 2), modifies=['self._samples'],
+      ensures=['result is self', APP(0), APP(1), SAME(0), SAME(1)], bounded='bounded_algebra'))
+  R.add(Contract(
+      f'{RS}::UnboundedSampler.merge', PROPS, variant='into-a-fresh-sampler', types=dict(self='UnboundedSampler', other='UnboundedSampler'), ret='UnboundedSampler',
+      setup=_sampler(0, 2), modifies=['self._samples', 'self._multi_input'],
+      ensures=['result is self', 'len(self._samples) == 2', SAME(0), SAME(1),
+               'len(self._samples[0]) == len(other._samples[0]) and len(self._samples[1]) == len(other._samples[1])',
+               'forall(lambda j: self._samples[0][j] is other._samples[0][j], 0, len(other._samples[0]))',
+               'forall(lambda j: self._samples[1][j] is other._samples[1][j], 0, len(other._samples[1]))',
+               # no sharing: the receiver got its own lists
+               'self._samples[0] is not other._samples[0] and self._samples[1] is not other._samples[1]',
+               'self._multi_input == other._multi_input'],
+      bounded='bounded_algebra'))
+  R.add(Contract(
+      f'{RS}::UnboundedSampler.merge', PROPS, variant='an-empty-sampler', types=dict(self='UnboundedSampler', other='UnboundedSampler'), ret='UnboundedSampler',
+      setup=_sampler(2, 0), modifies=[],
+      ensures=['result is self', 'len(self._samples[0]) == len(old(self._samples[0])) and len(self._samples[1]) == len(old(self._samples[1]))'],
+      bounded='bounded_algebra', note='merging an empty sampler is a no-op (D17)'))
+
+  # ValueAccumulator without a concat_fn: columns are concatenated into NEW lists (neither operand's list is written);
+  # an empty receiver adopts the operand's columns, an empty operand changes nothing
+  R.cls('ValueAccumulator', dict(_data='tuple[]', concat_fn='obj', metric_fns='obj'))
+  def _acc(self_cols, other_cols):
+    def setup(it, env):
+      env['self'].f['_data'] = it.fresh('tuple[' + ','.join(['list[obj]'] * self_cols) + ']', 'self._data') if self_cols else VTuple([])
+      env['other'].f['_data'] = it.fresh('tuple[' + ','.join(['list[obj]'] * other_cols) + ']', 'other._data') if other_cols else VTuple([])
+      env['self'].f['concat_fn'] = NONE
+      it.ghost['s0'] = VTuple(list(env['self'].f['_data'].items))
+      it.ghost['o0'] = VTuple(list(env['other'].f['_data'].items))
+    return setup
+  CAT = lambda c: (f'len(self._data[{c}]) == len(s0[{c}]) + len(o0[{c}])'
+                   f' and forall(lambda j: self._data[{c}][j] is s0[{c}][j], 0, len(s0[{c}]))'
+                   f' and forall(lambda j: self._data[{c}][len(s0[{c}]) + j] is o0[{c}][j], 0, len(o0[{c}]))')
+  KEPT = lambda who, g, c: (f'{who}[{c}] is {g}[{c}] and len({g}[{c}]) == len(old({g}[{c}]))'
+                            f' and forall(lambda j: {g}[{c}][j] is old({g}[{c}])[j], 0, len({g}[{c}]))')
+  R.add(Contract(
+      f'{RS}::ValueAccumulator.merge', PROPS, variant='both-non-empty', types=dict(self='ValueAccumulator', other='ValueAccumulator'),
+      setup=_acc(2, 2), modifies=['self._data'],
+      ensures=['result is None', 'len(self._data) == 2', CAT(0), CAT(1),
+               KEPT('other._data', 'o0', 0), KEPT('other._data', 'o0', 1),
+               # the receiver's old column lists are not written either (another accumulator may have adopted them)
+               'len(s0[0]) == len(old(s0[0])) and len(s0[1]) == len(old(s0[1]))',
+               'self._data[0] is not o0[0] and self._data[1] is not o0[1]'],
+      bounded='bounded_algebra'))
+  R.add(Contract(
+      f'{RS}::ValueAccumulator.merge', PROPS, variant='into-a-fresh-accumulator', types=dict(self='ValueAccumulator', other='ValueAccumulator'),
+      setup=_acc(0, 2), modifies=['self._data'],
+      ensures=['result is None', 'len(self._data) == 2',
+               'len(self._data[0]) == len(o0[0]) and forall(lambda j: self._data[0][j] is o0[0][j], 0, len(o0[0]))',
+               'len(self._data[1]) == len(o0[1]) and forall(lambda j: self._data[1][j] is o0[1][j], 0, len(o0[1]))',
+               KEPT('other._data', 'o0', 0), KEPT('other._data', 'o0', 1)],
+      bounded='bounded_algebra'))
+  R.add(Contract(
+      f'{RS}::ValueAccumulator.merge', PROPS, variant='an-empty-accumulator', types=dict(self='ValueAccumulator', other='ValueAccumulator'),
+      setup=_acc(2, 0), modifies=[],
+      ensures=['result is None', KEPT('self._data', 's0', 0), KEPT('self._data', 's0', 1)],
+      bounded='bounded_algebra'))
+
   R.bounded_checks['C01'] = [
       ('bounded_partition', 'every shipped metric: all shard/batch compositions (incl. empty shards) vs one batch'),
       ('bounded_row_locality', 'per-example values returned by add() do not depend on batch-mates (TopKRetrieval)'),
